@@ -239,6 +239,12 @@ func spaceAfterToken(subject, before, after *Token) bool {
 		// Don't split namespace segments in a function call
 		return false
 
+	case subject.Type == hclsyntax.TokenNumberLit && after.Type == hclsyntax.TokenDot:
+		// A dot written directly after a number literal would be scanned as
+		// part of that number, so a space that separates the two is
+		// significant and must survive formatting.
+		return after.SpacesBefore > 0
+
 	case subject.Type == hclsyntax.TokenDot || after.Type == hclsyntax.TokenDot:
 		// Don't use spaces around attribute access dots
 		return false
